@@ -70,7 +70,8 @@ PROPS = {
         ],
         "rule": "scaled constants: generated writing plans (1-4 files, 0-7 pieces of boundary sizes around CIPHERBUF/CHUNK/BLOCK, "
                 "random interleaving, names incl. empty/unicode/max-length, 4 layer combinations, levels {0,1,5,9,11}, 1-3 recipients, "
-                "reader holding any one key); non-trivial = at least one content byte; distinct = distinct (plan, read history)",
+                "reader holding any one key), plus EVERY interleaving of up to 5 (quick) / 6 (thorough) pieces of two files with piece sizes {0, 3} "
+                "(layer-less; files started up front, and for shorter sequences also started lazily; 1704 / 6824 plans); non-trivial = at least one content byte; distinct = distinct (plan, read history)",
         "exhaustive": {"quick": False, "thorough": False},
         "explanation": "",
         "assumptions": [],
